@@ -15,6 +15,7 @@ mod c02;
 mod c13;
 mod c19;
 mod c11;
+mod c08;
 
 fn main() {
     let args: Vec<String> = std::env::args().collect();
@@ -36,6 +37,7 @@ fn main() {
         "c13" => c13::main(rest),
         "c19" => c19::main(rest),
         "c11" => c11::main(rest),
+        "c08" => c08::main(rest),
         other => {
             eprintln!("unknown property {other}");
             std::process::exit(2);
